@@ -742,6 +742,13 @@ def make_specs():
     return [DebInit(W), HandleEvent(W), Stop(W), Run(W), PWRun(), StopProcess(T), StartProcess(T), RestartProcess(T), TrickStop(T), ShellOnAnyEvent(ShellWorld())]
 
 
+def lemmas():
+    """'stop() ends all, helper threads gone': the lock-order / join-under-lock lemmas over the real source (C06's W4) - the tricks'
+    helper threads call back into code that takes the stopping lock"""
+    from specs import c06
+    return [ob for ob in c06.lock_lemmas() if "join under lock" in ob.name or "lock levels" in ob.name]
+
+
 EXPECTED_CLAUSES = ["EventDebouncer.run.callback[batch = every event handed in since the last batch", "EventDebouncer.run.callback[not after stop()", "EventDebouncer.run.wait-predicate[untimed wait only while nothing is pending",
                     "EventDebouncer.handle_event.with-exit[I:delivered ++ pending = handled", "EventDebouncer.stop.post[stop flag set]", "ProcessWatcher.run.post[callback at most once]",
                     "AutoRestartTrick._stop_process.post[unless a stop is already in progress: the old child is not alive]", "AutoRestartTrick._start_process.post[exactly one child spawned]",
